@@ -30,6 +30,7 @@ type nlpEv struct {
 	Enh    []int  `json:"enh"`    // GetEnhancedKeywords()
 	KWSyn  []int  `json:"kwsyn"`  // 1 where the keyword is the synonym the analysis inserts after the preceding keyword
 	Same   bool   `json:"same"`   // analysing the text again (same and fresh processor) gives the identical analysis
+	KwComp bool   `json:"kwcomp"` // every keyword (and target) that a word of the query yields on its own is also one of the whole query
 	OnSame bool   `json:"onsame"` // the NLP search on a freshly loaded copy of the database (which has analysed nothing yet) answers identically
 	Panic  bool   `json:"panic"`
 }
@@ -186,6 +187,28 @@ func engineNLP(args []string) int {
 			}
 			ev.Enh = ids(pq.GetEnhancedKeywords())
 			ev.UW = ids(strings.Fields(strings.ToLower(pq.Cleaned)))
+			ev.KwComp = true
+			has := func(list []string, x string) bool {
+				for _, y := range list {
+					if y == x {
+						return true
+					}
+				}
+				return false
+			}
+			for _, wd := range strings.Fields(strings.ToLower(pq.Cleaned)) {
+				one := nlp.NewQueryProcessor().ProcessQuery(wd)
+				for _, k := range one.Keywords {
+					if !has(pq.Keywords, k) {
+						ev.KwComp = false
+					}
+				}
+				for _, k := range one.Targets {
+					if !has(pq.Targets, k) {
+						ev.KwComp = false
+					}
+				}
+			}
 			a1 := analysisString(pq)
 			ev.Same = a1 == analysisString(p.ProcessQuery(q)) && a1 == analysisString(nlp.NewQueryProcessor().ProcessQuery(q))
 			for k := 0; k < 5 && ev.Same; k++ {
